@@ -141,9 +141,9 @@ void vm_generate(uint64_t seed, unsigned size_class)
 
 void vm_describe(char *buf, size_t n)
 {
-	snprintf(buf, n, "{\"model_seed\":%llu,\"lps\":%u,\"tokens\":%u,\"ts_mode\":%d,\"dest_mode\":%d,\"payload_mode\":%d,\"mem_mode\":%d,\"rng_mode\":%d,\"side_max\":%d,\"init_ts0\":%d,\"total_target\":%u,\"stop\":[%d,%u],\"term_time\":%g,\"sparse_lp\":%d}",
+	snprintf(buf, n, "{\"model_seed\":%llu,\"lps\":%u,\"tokens\":%u,\"ts_mode\":%d,\"dest_mode\":%d,\"payload_mode\":%d,\"mem_mode\":%d,\"rng_mode\":%d,\"side_max\":%d,\"init_ts0\":%d,\"total_target\":%u,\"stop\":[%d,%u],\"term_time\":%g,\"sparse_lp\":%d,\"end_ts\":%g}",
 	    (unsigned long long)VM.seed, VM.n_lps, VM.tokens, VM.ts_mode, VM.dest_mode, VM.payload_mode, VM.mem_mode, VM.rng_mode, VM.side_max,
-	    VM.init_ts0, VM.total_target, VM.stop_lp, VM.stop_at, VM.term_time, VM.sparse_lp);
+	    VM.init_ts0, VM.total_target, VM.stop_lp, VM.stop_at, VM.term_time, VM.sparse_lp, VM.end_ts);
 }
 
 /* ---------------- handler ---------------- */
@@ -413,7 +413,7 @@ void vm_process(lp_id_t me, simtime_t now, unsigned type, const void *pl, unsign
 			s->stop_called = 1;
 			vm_env->stop();
 		}
-		if(s->count >= VM.target[me])
+		if(s->count >= VM.target[me] || (VM.end_ts > 0 && now >= VM.end_ts))
 			s->frozen = 1;
 	} else {
 		h = mix64(evh, me); /* frozen: decisions are a function of the event only, the state no longer changes */
